@@ -1,6 +1,7 @@
 import PysnarkModel.Lemmas.Values
 import PysnarkModel.Lemmas.ValuesDispatch
 import PysnarkModel.Spec.R1CS
+import PysnarkModel.Lemmas.PyDomain
 /-!
 # C05 — traced arithmetic agrees with Python semantics, or raises
 
@@ -300,5 +301,145 @@ example : ∃ qr s', divmodLL ⟨-7, []⟩ ⟨2, []⟩ (St.init 97 8 8) = .ok (q
   | ok r =>
     obtain ⟨qr, s'⟩ := r
     exact ⟨qr, s', rfl, (C05_divmod_agrees h).1, (C05_divmod_agrees h).2.1⟩
+
+/-! ## program level: every program of the fragment computes the plain-Python values
+
+`Spec/PyProg.lean` holds the vocabulary: `pyRun` (the reference interpreter on plain Python values),
+`ValRef` / `ValRefL` (same shape; a plain int is itself; a secret integer or boolean is its `.value`;
+a secret boolean is 0/1 and tagged `bool`), `PyFragment` with the exclusion table `Instr.pyExcl`
+(reasons: `PyExcl`), `PySupported` with the coverage table `Instr.pyGap` (reasons: `PyGap`),
+`InDomain` with `pyDomBin` / `pyDomCall`.  Proofs: `Lemmas/PyRun*.lean` (agreement, one lemma per
+dispatch function, induction over the instruction list) and `Lemmas/PyTotal*.lean` (totality). -/
+
+/-- **C05, program level, agreement.**  For every prime modulus `p`, every bit length and
+resolution, every program in `PyFragment` (no fixed-point values, no guarded regions, no `set ign`,
+no literal containing a secret, and none of the recorded deviations C05-invert, C05-bool-pow,
+C05-bool-bitwise-const, C05-secret-exponent-mod-p [exactly when the power leaves `[0, p)`],
+C05-rshift-negative; selection between lists under a secret condition and secret-index access to
+arrays with non-integer elements are left out): if the traced run completes, then the reference
+interpreter completes as well (plain Python raises at no instruction) and EVERY register of the
+traced run — secret integers and booleans by their `.value`, containers element-wise, plain ints as
+they are — equals the register of the reference run.  `//`, `%`, `divmod` with a negative divisor
+raise (C05-neg-divisor): a totality deviation, not a value deviation, so they need no exclusion. -/
+theorem C05_program (p : ℕ) [hp : Fact p.Prime] (bl res : ℕ) (prog : List Instr)
+    (hfrag : PyFragment (St.init p bl res) prog)
+    (out : Out) (hout : run (St.init p bl res) prog = out) (herr : out.err = none) :
+    ∃ pregs, pyRun bl prog = .ok pregs ∧ ValRefL out.regs pregs :=
+  run_py p hp.out bl res prog hfrag out hout herr
+
+/-- **… or raises; it never returns a different value**: when the traced run raises at instruction
+`j`, the reference run of the `j` instructions before it completes (the reference does not raise at
+any instruction the traced run got past) and agrees with every register computed so far. -/
+theorem C05_program_prefix (p : ℕ) [hp : Fact p.Prime] (bl res : ℕ) (prog : List Instr)
+    (hfrag : PyFragment (St.init p bl res) prog) (e : Err) (j : ℕ)
+    (herr : (run (St.init p bl res) prog).err = some (e, j)) :
+    ∃ pregs, pyRun bl (prog.take j) = .ok pregs ∧ ValRefL (run (St.init p bl res) prog).regs pregs :=
+  run_py_err p hp.out bl res prog hfrag e j herr
+
+/-- **C05, program level, totality.**  A program in `PyFragment` whose executed instructions meet
+operand kinds the API supports (`PySupported`: the table `Instr.pyGap`; NOT yet composed, by name:
+a secret exponent / shift count, secret-index array access, the assertion methods) and whose
+REFERENCE run completes inside the documented domain (`InDomain`: the exact bounds of
+`pyDomBin` / `pyDomCall` — comparison differences below `2^bl` in absolute value, `==`/`!=`
+differences zero or non-zero modulo `p`, divisors of `//`, `%`, `divmod` in `(0, 2^bl]`, the divisor
+of `/` not a multiple of `p`, operands of `>>`, `&`, `|`, `^` in `[0, 2^bl)`, 0/1 next to a boolean,
+public exponents ≤ 300 and shift counts ≤ 4096) does not raise. -/
+theorem C05_program_total (p : ℕ) [hp : Fact p.Prime] (bl res : ℕ) (prog : List Instr)
+    (hfrag : PyFragment (St.init p bl res) prog) (hsup : PySupported (St.init p bl res) prog)
+    (hdom : InDomain p bl prog) (pregs : List PyVal) (hpy : pyRun bl prog = .ok pregs) :
+    (run (St.init p bl res) prog).err = none :=
+  run_py_total p hp.out bl res prog hfrag hsup hdom pregs hpy
+
+/-- both together: inside the fragment, the coverage table and the domain, the traced run completes
+and every register is the reference register -/
+theorem C05_program_total_agrees (p : ℕ) [hp : Fact p.Prime] (bl res : ℕ) (prog : List Instr)
+    (hfrag : PyFragment (St.init p bl res) prog) (hsup : PySupported (St.init p bl res) prog)
+    (hdom : InDomain p bl prog) (pregs : List PyVal) (hpy : pyRun bl prog = .ok pregs) :
+    (run (St.init p bl res) prog).err = none ∧ ValRefL (run (St.init p bl res) prog).regs pregs := by
+  have herr := C05_program_total p bl res prog hfrag hsup hdom pregs hpy
+  obtain ⟨pregs', h1, h2⟩ := C05_program p bl res prog hfrag _ rfl herr
+  rw [hpy] at h1
+  cases h1
+  exact ⟨herr, h2⟩
+
+/-- the domain on which the harness checks totality — operands below `2^(bl-1)` in absolute value,
+`bl ≥ 1`, `2^(bl+1) < p`, and the operator's side condition `pySideOk` (non-zero divisor for `/`,
+POSITIVE divisor for `//`, `%`, `divmod`, non-negative operands for `>>`, `&`, `|`, `^`, public
+exponent ≤ 300, shift count ≤ 4096, 0/1 next to a boolean) — lies inside the exact bounds
+`pyDomBin` that `C05_program_total` needs -/
+theorem C05_domain_of_small {p : ℤ} {bl : ℕ} (hbl : 1 ≤ bl) (hp : 2 ^ (bl + 1) < p) {op : BinOp}
+    {ba bb : Bool} {x y : ℤ} (hx : |x| < 2 ^ (bl - 1)) (hy : |y| < 2 ^ (bl - 1))
+    (hs : pySideOk op ba bb x y) : pyDomBin p bl op ba bb x y = true :=
+  pyDomBin_of_small hbl hp hx hy hs
+
+/-- the exclusion `secretExponentWraps` is exact: `powWraps p x e` holds precisely when the Python
+power `x ^ e` is outside `[0, p)` (the shortcut for astronomically large powers does not change it) -/
+theorem C05_powWraps_exact (p x e : ℤ) :
+    powWraps p x e = !(decide (0 ≤ x ^ e.toNat) && decide (x ^ e.toNat < p)) := powWraps_eq p x e
+
+/-! ### non-vacuity at program level: a 29-instruction program over `p = 97`, 5-bit values -/
+
+/-- comparisons, `//`, `%`, exact `/`, `<<`, `>>`, `&`, `|`, `^`, `**`, `abs`, selection,
+`to_bits` / `from_bits`, boolean `&` and `~`, `divmod`, `val()` -/
+def pyDemo : List Instr :=
+  [ .lit (.int 13), .lit (.int 5), .mk .priv 0, .mk .priv 1,
+    .bin .lt 3 2, .bin .floordiv 2 3, .bin .mod 2 3,
+    .lit (.int 12), .mk .pub 7, .lit (.int 4), .bin .truediv 8 9,
+    .lit (.int 2), .bin .lshift 3 11, .bin .rshift 2 11,
+    .bin .band 2 3, .bin .bor 2 3, .bin .bxor 2 3, .bin .pow 3 11,
+    .lit (.int (-7)), .mk .priv 18, .un .abs 19,
+    .ite 4 2 3, .call .toBits 3 [], .call .fromBits 22 [],
+    .bin .ge 2 8, .bin .band 4 24, .un .invert 25, .bin .divmod 2 3, .call .val 23 [] ]
+
+/-- the reference values of `pyDemo`, register by register -/
+def pyDemoRef : List PyVal :=
+  [ .int 13, .int 5, .int 13, .int 5,
+    .bool 1, .int 2, .int 3,
+    .int 12, .int 12, .int 4, .int 3,
+    .int 2, .int 20, .int 3,
+    .int 5, .int 13, .int 8, .int 25,
+    .int (-7), .int (-7), .int 7,
+    .int 13, .list [.bool 1, .bool 0, .bool 1, .bool 0, .bool 0], .int 5,
+    .bool 1, .bool 1, .bool 0, .tuple [.int 2, .int 3], .int 5 ]
+
+/-- the program is in the fragment, in the coverage table and in the domain; the reference
+interpreter yields the listed values; the traced run completes with exactly these values -/
+example :
+    PyFragment (St.init 97 5 8) pyDemo ∧ PySupported (St.init 97 5 8) pyDemo ∧ InDomain 97 5 pyDemo ∧
+    (match pyRun 5 pyDemo with | .ok r => PyVal.eqbL r pyDemoRef | .error _ => false) = true ∧
+    (run (St.init 97 5 8) pyDemo).err = none ∧
+    ValRefL (run (St.init 97 5 8) pyDemo).regs pyDemoRef := by
+  refine ⟨?_, ?_, ?_, ?_, ?_, ?_⟩ <;> first | decide +kernel | fail "pyDemo: closed evaluation failed"
+
+/-- the two program-level theorems applied to `pyDemo`: their hypotheses are satisfiable -/
+example : ∃ pregs, pyRun 5 pyDemo = .ok pregs ∧
+    (run (St.init 97 5 8) pyDemo).err = none ∧ ValRefL (run (St.init 97 5 8) pyDemo).regs pregs := by
+  haveI : Fact (Nat.Prime 97) := ⟨by norm_num⟩
+  have hf : PyFragment (St.init (97 : ℕ) 5 8) pyDemo := by
+    first | decide +kernel | fail "pyDemo: not in the fragment"
+  have hs : PySupported (St.init (97 : ℕ) 5 8) pyDemo := by
+    first | decide +kernel | fail "pyDemo: not covered"
+  have hd : InDomain (97 : ℕ) 5 pyDemo := by
+    first | decide +kernel | fail "pyDemo: outside the domain"
+  cases hr : pyRun 5 pyDemo with
+  | error e =>
+    have : (match pyRun 5 pyDemo with | .ok _ => true | .error _ => false) = true := by
+      first | decide +kernel | fail "pyDemo: the reference stops"
+    rw [hr] at this; cases this
+  | ok pregs => exact ⟨pregs, rfl, C05_program_total_agrees 97 5 8 pyDemo hf hs hd pregs hr⟩
+
+/-- the exclusions are not vacuous either: `~x` on a secret integer is rejected by name -/
+example : pyFirstExcl [.lit (.int 5), .mk .priv 0, .un .invert 1] 0 [] [] (St.init 97 8 8) =
+    some (2, PyExcl.invertSecretInt) := by
+  first | decide +kernel | fail "exclusion table changed"
+
+/-- … and a secret exponent is excluded exactly when the power wraps: `(-2) ** PrivVal(1)` is,
+`2 ** PrivVal(3)` is not -/
+example :
+    pyFirstExcl [.lit (.int (-2)), .lit (.int 1), .mk .priv 0, .mk .priv 1, .bin .pow 2 3] 0 [] []
+      (St.init 97 8 8) = some (4, PyExcl.secretExponentWraps) ∧
+    pyFirstExcl [.lit (.int 2), .lit (.int 3), .mk .priv 0, .mk .priv 1, .bin .pow 2 3] 0 [] []
+      (St.init 97 8 8) = none := by
+  refine ⟨?_, ?_⟩ <;> first | decide +kernel | fail "exclusion table changed"
 
 end Pysnark
